@@ -52,6 +52,15 @@ def ops_for(names, rng, full):
     for sub in subsets:
         ops.append(("only", sub))
         ops.append(("except", sub))
+        if len(sub) >= 2:
+            # the order in which an identifier list is written must not matter: descending and a random order too
+            ops.append(("only", list(reversed(sub))))
+            ops.append(("except", list(reversed(sub))))
+            if len(sub) >= 3:
+                perm = list(sub)
+                rng.shuffle(perm)
+                ops.append(("only", perm))
+                ops.append(("except", perm))
     ops.append(("only", ns[:1] + ["zz"]))       # an identifier the set does not contain
     ops.append(("except", ["zz"]))
     for p in ("p-", "a"):
